@@ -37,9 +37,10 @@ const (
 	kCancelErr   = "cancel(err)"
 	kCancelNil   = "cancel(nil)"
 	kPanic       = "panic"
-	kStall       = "stall"        // blocks until the harness releases it (no cancellation: the run stays clean)
-	kOutlive     = "outlive-ctx"  // ends the context here, stays until the call has returned, then does Then
-	kCancelPanic = "cancel+panic" // cancel(err) and then panic in the same invocation (two faults)
+	kStall       = "stall"                   // blocks until the harness releases it (no cancellation: the run stays clean)
+	kOutlive     = "outlive-ctx"             // ends the context here, stays until the call has returned, then does Then
+	kCancelPanic = "cancel+panic"            // cancel(err) and then panic in the same invocation (two faults)
+	kHeld        = "held-until-call-returns" // no context involved: stays inside until the call has returned (or provably waits for it), then does Then
 )
 
 // what an outliving function does once it has been released
@@ -99,6 +100,11 @@ type plan struct {
 	Inflight   bool   `json:"cancel_in_flight,omitempty"` // family inflight: see inflight_test.go
 	SecondKind string `json:"fault2,omitempty"`           // a second, independent fault
 	SecondAt   pos    `json:"fault2_at,omitempty"`
+	// ext_test.go: which error values are passed to cancel / returned by Finish functions, which values
+	// user panics carry, and any number of further faults at further positions
+	Errs     string   `json:"cancel_error_values,omitempty"`
+	PanicVal string   `json:"panic_values,omitempty"`
+	More     []xfault `json:"more_faults,omitempty"`
 }
 
 func (p plan) effWorkers() int {
